@@ -248,9 +248,16 @@ def extract_fn(unit: str, file: str, item: str, mode: str, contracts, canary: bo
             segs.append(Seg('#[derive(%s)]\n' % opts['derive'], {'kind': 'rewrite', 'rule': 'R7:derive'}))
         if opts.get('attr'):
             segs.append(Seg(opts['attr'] + '\n', {'kind': 'rewrite', 'rule': 'R7:attr'}))
+        if opts.get('sub'):
+            # purely textual substitution inside a non-function item (logged), e.g. `[&str;` -> `[&'static str;`
+            o_, _, n_ = opts['sub'].partition('=>')
+            p0 = raw.find(o_)
+            if p0 < 0:
+                raise LostAnchor('%s: item substitution anchor %r not found' % (fn_label, o_))
+            edits.append((it.start + p0, it.start + p0 + len(o_), n_, {'kind': 'rewrite', 'rule': 'R7:sub'}))
         segs += _apply_edits(raw, it.start, edits, repo_origin)
         segs.append(Seg('\n', {'kind': 'glue'}))
-        info.rewrites = ['R7:attrs-filtered']
+        info.rewrites = ['R7:attrs-filtered'] + (['R7:sub %s' % opts['sub']] if opts.get('sub') else [])
         return segs, info
 
     if it.body_open_tok < 0 and mode != 'decl':
@@ -429,6 +436,35 @@ def extract_fn(unit: str, file: str, item: str, mode: str, contracts, canary: bo
                         rename[u] = new_name
                 info.rewrites.append('R21:%s' % name)
         k += 1
+    # ... and a `for` pattern that re-binds a parameter name (uses inside the loop body refer to the loop variable)
+    for lp0 in find_loops(toks, blo, bhi):
+        if lp0.kw != 'for':
+            continue
+        dd = 0
+        in_k = None
+        for q0 in range(lp0.kw_tok + 1, lp0.open_tok):
+            tq = toks[q0]
+            if tq.kind == 'punct' and tq.text in ('(', '[', '{'):
+                dd += 1
+            elif tq.kind == 'punct' and tq.text in (')', ']', '}'):
+                dd -= 1
+            elif tq.kind == 'ident' and tq.text == 'in' and dd == 0:
+                in_k = q0
+                break
+        if in_k is None:
+            continue
+        for q0 in range(lp0.kw_tok + 1, in_k):
+            if toks[q0].kind == 'ident' and toks[q0].text in params and toks[q0 - 1].text not in ('::', '.'):
+                name = toks[q0].text
+                counters[name] = counters.get(name, 0) + 1
+                new_name = 'vp_%s%d' % (name, counters[name])
+                rename[q0] = new_name
+                for u in range(lp0.open_tok, lp0.close_tok):
+                    if toks[u].kind == 'ident' and toks[u].text == name and toks[u - 1].text != '.' and u not in rename:
+                        rename[u] = new_name
+                    elif toks[u].kind == 'ident' and toks[u].text == name and toks[u - 1].text != '.':
+                        pass  # already claimed by an inner `let` shadow
+                info.rewrites.append('R21:for %s' % name)
     for u, nm in sorted(rename.items()):
         edits.append((toks[u].start, toks[u].end, nm, rw('R21')))
 
